@@ -717,3 +717,174 @@ for _fn, _cls, _want, _bonly, _what in (
                                      "expr": ty.TObj(_cls, only=(_cls,), ftypes=(("signal_type", ty.Str), ("bundle", ty.TObj("Expr"))))},
         requires=[("(reset capture)", lambda a: BS.clear() or True)],
         ensures=[(_what, _bs_post(_want, _bonly))], uses=_BS_USES, dynamic_types=_BS_DYN, properties=("C02", "C06"), min_obligations=2, no_replay=True))
+
+
+# =================================================================================================
+# Output specifiers with bundles (C02):
+#   _lower_bundle_filter_output_spec  `(bundle CMP x) : out` -> ONE each-decider over the lowered bundle and the lowered scalar with the
+#                                     comparison's own operator; out a bundle: members keep their values (copy mode); out a constant:
+#                                     every passing member gets THAT constant — its compile-time value, int variables included
+#   _gate_bundle_by_condition         `(cond) : bundle` for a condition that is already a value: the bundle passes while cond != 0
+#   _lower_identifier_condition_output_spec / _lower_compound_output_spec with a bundle after ':' hand it to that gate (the condition
+#                                     lowered to its truth value); they never build a scalar decider for a bundle
+# =================================================================================================
+OS = {}
+
+
+def _os_reset(a):
+    OS.clear()
+    return True
+
+
+def _os_lower(ex, a):
+    OS.setdefault("lowered", []).append(a.expr)
+    kinds = OS.get("kinds", {})
+    t = kinds.get(id(a.expr))
+    if t is None:
+        t = ty.TUnion((ty.Int, ty.TObj("SignalRef", only=("SignalRef",))))
+    v = ex.mk(t, fresh_name("lowered"), register=True)
+    a.expr._fields["@lowered_to"] = v
+    return v
+
+
+def _os_extract(ex, a):
+    OS["extract_resolver"] = a.symbol_resolver
+    return _ghost2(a.expr, "cval", ty.TOpt(ty.Int))
+
+
+def _os_bundle_decider(ex, a):
+    OS["bundle_decider"] = a
+    r = SObj(["BundleRef"], fresh_name("filtered"), lazy=True)
+    OS["result"] = r
+    return r
+
+
+def _os_gating(ex, a):
+    OS["gating"] = a
+    r = SObj(["BundleRef"], fresh_name("gated"), lazy=True)
+    OS["result"] = r
+    return r
+
+
+_os_lower_c = Contract(qualname=ELQ2 + "lower_expr", params={"self": _OPQ, "expr": _OPQ}, effect=_os_lower, verify=False, note="the lowered sub-expression")
+_os_extract_c = Contract(qualname="dsl_compiler/src/lowering/constant_folder.py::ConstantFolder.extract_constant_int", params={"cls": _OPQ, "expr": _OPQ, "diagnostics": _OPQ, "symbol_resolver": _OPQ},
+                         defaults={"diagnostics": None, "symbol_resolver": None}, effect=_os_extract, verify=False,
+                         note="verified separately (contracts.c11): the S3 constant value (int variables through the resolver), or None")
+_os_bdec_c = Contract(qualname=IRB + "bundle_decider", params={"self": _OPQ, "op": _OPQ, "bundle": _OPQ, "compare_value": _OPQ, "copy_count_from_input": _OPQ, "output_value": _OPQ, "source_ast": _OPQ},
+                      defaults={"copy_count_from_input": True, "output_value": 1, "source_ast": None}, effect=_os_bundle_decider, verify=False, note="proved above")
+_os_gate_c = Contract(qualname=IRB + "bundle_gating_decider", params={"self": _OPQ, "op": _OPQ, "left": _OPQ, "right": _OPQ, "bundle": _OPQ, "copy_count_from_input": _OPQ, "output_value": _OPQ,
+                                                                      "source_ast": _OPQ}, defaults={"copy_count_from_input": True, "output_value": 1, "source_ast": None},
+                      effect=_os_gating, verify=False, note="proved above")
+_OS_DYN = {"self": {"parent": ty.TObj("ASTLowerer", only=("ASTLowerer",))},
+           "self.parent": {"ir_builder": ty.TObj("IRBuilder", only=("IRBuilder",)), "semantic": ty.TOpaque("semantic"), "diagnostics": ty.TOpaque("diag")}}
+_OS_USES = {"ExpressionLowerer.lower_expr": _os_lower_c, "ConstantFolder.extract_constant_int": _os_extract_c, "IRBuilder.bundle_decider": _os_bdec_c, "IRBuilder.bundle_gating_decider": _os_gate_c,
+            "ExpressionLowerer._attach_expr_context": "skip", "ExpressionLowerer._error": "skip", "ExpressionLowerer.ir_builder": "inline", "ExpressionLowerer.semantic": "inline",
+            "ExpressionLowerer.diagnostics": "inline"}
+
+
+def _filter_pre(out_kind):
+    def pre(a):
+        OS["kinds"] = {id(a.expr.condition.left): ty.TObj("BundleRef", only=("BundleRef",))}
+        return True
+    return pre
+
+
+def _filter_post(out_kind):
+    def post(a, res):
+        c = a.expr.condition
+        d = OS.get("bundle_decider")
+        if d is None or res is not OS.get("result"):
+            return False
+        base = [d.op is c.op, d.bundle is c.left._fields.get("@lowered_to"), d.compare_value is c.right._fields.get("@lowered_to")]
+        if out_kind == "bundle":
+            return all(base) and d.copy_count_from_input is True
+        cv = a.expr.output_value._fields.get("@cval")
+        resolver_passed = OS.get("extract_resolver") is not None
+        return all(base) and d.copy_count_from_input is False and resolver_passed and (d.output_value is cv if cv is not None else d.output_value == 1)
+    return post
+
+
+for _ok in ("bundle", "constant"):
+    _otype = "BundleValue" if _ok == "bundle" else "IntValue"
+    CONTRACTS.append(Contract(
+        qualname=ELQ2 + "_lower_bundle_filter_output_spec",
+        params={"self": ty.TObj("ExpressionLowerer", only=("ExpressionLowerer",)),
+                "expr": ty.TObj("OutputSpecExpr", only=("OutputSpecExpr",), ftypes=(
+                    ("condition", ty.TObj("BinaryOp", only=("BinaryOp",), ftypes=(("op", ty.Str), ("left", ty.TObj("Expr", only=("IdentifierExpr",))), ("right", ty.TObj("Expr", only=("IdentifierExpr", "NumberLiteral")))))),
+                    ("output_value", ty.TObj("Expr", only=("IdentifierExpr", "NumberLiteral", "BinaryOp")))))},
+        requires=[("(reset capture)", _os_reset), ("(the filtered operand lowers to a bundle)", _filter_pre(_ok))],
+        ensures=[("one each-decider with the comparison's operator over the lowered bundle and scalar; members keep their values, or get the constant's compile-time value (int variables resolved)",
+                  _filter_post(_ok))],
+        uses={**_OS_USES, "opaque.get_expr_type": Contract(qualname="dsl_compiler/src/semantic/analyzer.py::SemanticAnalyzer.get_expr_type", params={"args": _OPQ},
+                                                           effect=(lambda k: (lambda ex, a: SObj([k], fresh_name("otype"), lazy=True)))(_otype), verify=False, note="the type of the value after ':'")},
+        dynamic_types=_OS_DYN, properties=("C02",), min_obligations=1, no_replay=True, note=f"output: {_ok}"))
+
+
+def _gate_post(a, res):
+    g = OS.get("gating")
+    return g is not None and res is OS.get("result") and g.op == "!=" and g.left is a.cond_ref and g.right == 0 and g.bundle is a.bundle_ref and g.copy_count_from_input is True
+
+
+CONTRACTS.append(Contract(
+    qualname=ELQ2 + "_gate_bundle_by_condition",
+    params={"self": ty.TObj("ExpressionLowerer", only=("ExpressionLowerer",)), "cond_ref": ty.TUnion((ty.Int, ty.TObj("SignalRef", only=("SignalRef",)))),
+            "bundle_ref": ty.TObj("BundleRef", only=("BundleRef",)), "expr": ty.TObj("OutputSpecExpr", only=("OutputSpecExpr",))},
+    requires=[("(reset capture)", _os_reset)],
+    ensures=[("the bundle is gated by `cond != 0`, its members copied", _gate_post)],
+    uses=_OS_USES, dynamic_types=_OS_DYN, properties=("C02",), min_obligations=1, no_replay=True))
+
+
+def _os_gate_helper(ex, a):
+    OS["gate_call"] = a
+    r = SObj(["BundleRef"], fresh_name("gated"), lazy=True)
+    OS["result"] = r
+    return r
+
+
+def _os_value(ex, a):
+    OS["value_of"] = a.output_value
+    r = SObj(["BundleRef"], fresh_name("bundle_after_colon"), lazy=True)
+    OS["bundle"] = r
+    return r
+
+
+def _cond_bundle_post(kind):
+    def post(a, res):
+        g = OS.get("gate_call")
+        cond = a.expr.condition
+        return (g is not None and res is OS.get("result") and g.bundle_ref is OS.get("bundle") and g.cond_ref is cond._fields.get("@lowered_to")
+                and OS.get("value_of") is a.expr.output_value and "multi" not in OS and "decider" not in OS)
+    return post
+
+
+_gate_helper_c = Contract(qualname=ELQ2 + "_gate_bundle_by_condition", params={"self": _OPQ, "cond_ref": _OPQ, "bundle_ref": _OPQ, "expr": _OPQ}, effect=_os_gate_helper, verify=False, note="proved above")
+_value_c = Contract(qualname=ELQ2 + "_lower_output_spec_value", params={"self": _OPQ, "output_value": _OPQ}, effect=_os_value, verify=False, note="the lowered value after ':' — here a bundle")
+_COND_USES = {**_OS_USES, "ExpressionLowerer._gate_bundle_by_condition": _gate_helper_c, "ExpressionLowerer._lower_output_spec_value": _value_c,
+              "ExpressionLowerer._collect_comparison_chain": Contract(qualname=ELQ2 + "_collect_comparison_chain", params={"self": _OPQ, "expr": _OPQ, "logical_op": _OPQ},
+                                                                      effect=lambda ex, a: [a.expr.left, a.expr.right], verify=False, note="the two comparisons of the chain"),
+              "opaque.get_expr_type": Contract(qualname="dsl_compiler/src/semantic/analyzer.py::SemanticAnalyzer.get_expr_type", params={"args": _OPQ},
+                                               effect=lambda ex, a: SObj(["BundleValue"], fresh_name("btype"), lazy=True), verify=False, note="the type of the whole expression (a bundle)"),
+              "fn:get_signal_type_name": Contract(qualname="dsl_compiler/src/semantic/type_system.py::get_signal_type_name", params={"value_type": _OPQ}, effect=lambda ex, a: None, verify=False,
+                                                  note="a bundle has no signal name"),
+              "IRBuilder.allocate_implicit_type": Contract(qualname=IRB + "allocate_implicit_type", params={"self": _OPQ}, effect=lambda ex, a: z3.String("fresh_implicit_type"), verify=False,
+                                                           note="fresh implicit type name"),
+              "opaque.ensure_signal_registered": "skip", "ASTLowerer.ensure_signal_registered": "skip",
+              "IRBuilder.decider": Contract(qualname=IRB + "decider", params={"kwargs": _OPQ}, effect=lambda ex, a: OS.__setitem__("decider", a), verify=False, note="(must not be reached)"),
+              "IRBuilder.decider_multi": Contract(qualname=IRB + "decider_multi", params={"kwargs": _OPQ}, effect=lambda ex, a: OS.__setitem__("multi", a), verify=False, note="(must not be reached)")}
+CONTRACTS.append(Contract(
+    qualname=ELQ2 + "_lower_identifier_condition_output_spec",
+    params={"self": ty.TObj("ExpressionLowerer", only=("ExpressionLowerer",)),
+            "expr": ty.TObj("OutputSpecExpr", only=("OutputSpecExpr",), ftypes=(("condition", ty.TObj("IdentifierExpr", only=("IdentifierExpr",))), ("output_value", ty.TObj("Expr"))))},
+    requires=[("(reset capture)", _os_reset)],
+    ensures=[("a bundle after ':' is gated by the named condition's value; no scalar decider is built for it", _cond_bundle_post("identifier"))],
+    uses=_COND_USES, dynamic_types=_OS_DYN, properties=("C02",), min_obligations=1, no_replay=True, note="bundle after ':'"))
+_CMPX = ty.TObj("BinaryOp", only=("BinaryOp",), ftypes=(("op", ty.TConcrete(">")), ("left", ty.TObj("Expr", only=("IdentifierExpr",))), ("right", ty.TObj("Expr", only=("NumberLiteral",)))))
+for _lop in ("&&", "||"):
+    CONTRACTS.append(Contract(
+        qualname=ELQ2 + "_lower_compound_output_spec",
+        params={"self": ty.TObj("ExpressionLowerer", only=("ExpressionLowerer",)),
+                "expr": ty.TObj("OutputSpecExpr", only=("OutputSpecExpr",), ftypes=(
+                    ("condition", ty.TObj("BinaryOp", only=("BinaryOp",), ftypes=(("op", ty.TConcrete(_lop)), ("left", _CMPX), ("right", _CMPX)))), ("output_value", ty.TObj("Expr"))))},
+        requires=[("(reset capture)", _os_reset)],
+        ensures=[("a bundle after ':' is gated by the truth value of the whole condition; no scalar decider is built for it", _cond_bundle_post("compound"))],
+        uses=_COND_USES, dynamic_types=_OS_DYN, properties=("C02",), min_obligations=1, no_replay=True, note=f"bundle after ':'; condition c1 {_lop} c2"))
